@@ -112,7 +112,7 @@ Example C10_example_run :
     [(false, None); (false, None); (false, None); (false, Some (mkFrame 1000 [1; 2]));
      (false, Some (mkFrame 2000 [3; 4])); (true, None)] /\ cap_ok 4 /\ Forall seq16 ex_l.
 Proof.
-  eexists. split; [eexists; split; reflexivity|]. split.
+  eexists. split; [apply reaches_check; vm_compute; reflexivity|]. split.
   - exists 2. split; [lia|reflexivity].
   - unfold ex_l, seq16. repeat constructor; cbn; lia.
 Qed.
@@ -123,17 +123,9 @@ Definition ex_l2 : list pkt :=
   [mkPkt 65535 10 [1]; mkPkt 0 10 [2]; mkPkt 1 20 [3]; mkPkt 2 30 [4]].
 
 Example C10_example_never_late : never_late 4 0 true ex_l2.
-Proof.
-  intros l1 p l2 s outs El (s0 & E0 & ER). injection E0 as <-. unfold ex_l2 in El.
-  destruct l1 as [|a [|b [|c [|d l1]]]]; cbn [app] in El.
-  - injection El as <- <-. injection ER as <- <-. exact (fun H => H).
-  - injection El as <- <- <-. vm_compute in ER. injection ER as <- <-. vm_compute. intros [H _]. discriminate H.
-  - injection El as <- <- <- <-. vm_compute in ER. injection ER as <- <-. vm_compute. intros [H _]. discriminate H.
-  - injection El as <- <- <- <- <-. vm_compute in ER. injection ER as <- <-. vm_compute. intros [H _]. discriminate H.
-  - exfalso. apply (f_equal (@length pkt)) in El. cbn [length] in El. rewrite app_length in El. cbn [length] in El. lia.
-Qed.
+Proof. apply never_late_check. vm_compute. reflexivity. Qed.
 
 Example C10_example_ordered :
   exists s outs, reaches 4 0 true ex_l2 s outs /\
     released outs = [mkFrame 10 [1; 2]; mkFrame 20 [3]].
-Proof. eexists; eexists. split; [eexists; split; reflexivity|reflexivity]. Qed.
+Proof. eexists; eexists. split; [apply reaches_check; vm_compute; reflexivity|reflexivity]. Qed.
